@@ -780,6 +780,20 @@ func runC16(r *Report, p *Program) {
 						okOnce = true
 					}
 				}
+			} else {
+				// a method handed to Once.Do as a method value: every use of the method is such a method value
+				uses, viaOnce := 0, 0
+				for _, g := range p.ModFuncs() {
+					for _, d := range findCalls(g, func(x ssa.Instruction) bool { return isCallTo(x, "(*sync.Once).Do") }) {
+						if mc, ok := callOf(d).Args[1].(*ssa.MakeClosure); ok {
+							if w, ok := mc.Fn.(*ssa.Function); ok && w.Synthetic != "" && len(callsToFunc(w, fn)) > 0 {
+								viaOnce++
+							}
+						}
+					}
+					uses += len(callsToFunc(g, fn))
+				}
+				okOnce = viaOnce > 0 && uses == 0
 			}
 			r.Check(okOnce, "R1", "allShutdownCallbacks/called-from:"+shortFunc(fn), c.Pos(), "allShutdownCallbacks runs only inside the function passed to shutdownCallbacksOnce.Do")
 		}
@@ -794,18 +808,55 @@ func runC16(r *Report, p *Program) {
 		r.Check(t.wg == "" && t.other+t.oRestart == "", "R2", "casket.(*Instance).Restart/new-instance-wg", rs.Pos(), "the new instance shares the old instance's wait group, so Wait() on the old one also waits for its successors", t.wg, t.other+t.oRestart)
 	}
 
-	r.Rule("R3", "signal handling: on SIGTERM executeShutdownCallbacks precedes Stop precedes os.Exit", 2)
+	r.Rule("R3", "signal handling: on SIGTERM executeShutdownCallbacks precedes Stop precedes os.Exit (a helper all of whose paths stop the servers counts as the stop; the order inside it is checked there)", 2)
 	if tp := p.Func("", "trapSignalsPosix"); tp != nil {
-		for _, g := range withClosures(tp) {
-			stops := callsTo(g, "casket.Stop")
-			if len(stops) == 0 {
+		// helpers that stop the servers on every path to a return
+		stopsAlways := func(f *ssa.Function) ([]ssa.Instruction, bool) {
+			st := callsTo(f, "casket.Stop")
+			if len(st) == 0 || len(f.Blocks) == 0 {
+				return nil, false
+			}
+			for _, rt := range realReturns(f) {
+				if !mustPass(f, rt, anyOf(st)) {
+					return st, false
+				}
+			}
+			return st, true
+		}
+		for _, g := range withHelpers(tp, 2) {
+			var stops []ssa.Instruction
+			inner := map[ssa.Instruction]*ssa.Function{}
+			for _, s := range callsTo(g, "casket.Stop") {
+				stops = append(stops, s)
+			}
+			allInstrs(g, func(in ssa.Instruction) {
+				if c := callOf(in); c != nil {
+					if f := c.StaticCallee(); f != nil && f != g && fnPkg(f) != nil && fnPkg(f).Path() == fnPkg(tp).Path() {
+						if _, ok := stopsAlways(f); ok {
+							stops = append(stops, in)
+							inner[in] = f
+						}
+					}
+				}
+			})
+			exits := findCalls(g, func(x ssa.Instruction) bool { return isCallTo(x, "os.Exit") })
+			if len(stops) == 0 || (len(exits) == 0 && len(callsTo(g, "casket.Stop")) == 0) {
 				continue
 			}
 			cbs := callsTo(g, "casket.executeShutdownCallbacks")
 			for _, s := range stops {
-				r.Check(mustPass(g, s, anyOf(cbs)), "R3", "casket.trapSignalsPosix/SIGTERM-callbacks-before-stop", s.Pos(), "shutdown callbacks run before the servers are stopped")
-				// exit after stop
-				exits := findCalls(g, func(x ssa.Instruction) bool { return isCallTo(x, "os.Exit") })
+				if f := inner[s]; f != nil {
+					st, _ := stopsAlways(f)
+					fcbs := callsTo(f, "casket.executeShutdownCallbacks")
+					for _, x := range st {
+						r.Check(mustPass(f, x, anyOf(fcbs)) || mustPass(g, s, anyOf(cbs)), "R3", "casket.trapSignalsPosix/SIGTERM-callbacks-before-stop", x.Pos(), "shutdown callbacks run before the servers are stopped")
+					}
+				} else if len(exits) > 0 || len(cbs) > 0 {
+					r.Check(mustPass(g, s, anyOf(cbs)), "R3", "casket.trapSignalsPosix/SIGTERM-callbacks-before-stop", s.Pos(), "shutdown callbacks run before the servers are stopped")
+				}
+				if len(exits) == 0 {
+					continue // a helper: the exit is its caller's matter
+				}
 				after := false
 				for _, e := range exits {
 					if canReach(g, s, e, cut{}) && mustPass(g, e, func(x ssa.Instruction) bool { return x == s || !canReach(g, s, e, cut{}) }) {
@@ -1127,4 +1178,16 @@ func onlyRegisteredThrough(p *Program, addr ssa.Value, scope map[*ssa.Function]b
 		}
 	}
 	return true
+}
+
+
+// callsToFunc: the call instructions in g whose static callee is f.
+func callsToFunc(g, f *ssa.Function) []ssa.Instruction {
+	var out []ssa.Instruction
+	allInstrs(g, func(in ssa.Instruction) {
+		if c := callOf(in); c != nil && c.StaticCallee() == f {
+			out = append(out, in)
+		}
+	})
+	return out
 }
